@@ -6,7 +6,8 @@
    WF x = sorted timestamps inside a canonical support (empty series: empty support), cells fill the
    shape, axis 0 = number of timestamps, class given by the rank, one label per column.
    Clauses of the statement that are FALSE of the faithful model carry a `_refuted` witness (each replays
-   on /repo).  Not modelled: in-place operators / out= holding the series (the code recurses), metadata. *)
+   on /repo; recorded as known findings).  Follows /repo as repaired (0-d results, multi-output ufuncs,
+   np.array_split).  Not modelled: in-place operators / out= holding the series (the code recurses), metadata. *)
 From Verif Require Import Base.Prelude Model.Restrict Model.Iset Model.Count Model.Slice Model.NpWrap
   Proofs.C02Top Proofs.NpWrapProofs.
 From Coq Require Import Sorting.Sorted.
@@ -41,6 +42,12 @@ Theorem C14_wrap_scalar_passthrough : forall (V W : Type) (f : arr V -> npres V 
   f (dat x) = NOther o -> wrap f x = OOther o.
 Proof. exact @wrap_other. Qed.
 Print Assumptions C14_wrap_scalar_passthrough.
+
+(* a 0-d array result (np.squeeze on a series of length 1) is returned as it is *)
+Theorem C14_zero_dim_passthrough : forall (V W : Type) (f : arr V -> npres V W) (x : ts V) (a : arr V),
+  f (dat x) = NArr a -> shape a = [] -> wrap f x = OArr a.
+Proof. exact @wrap_zero_dim. Qed.
+Print Assumptions C14_zero_dim_passthrough.
 
 (* 4. class by rank; column labels kept iff TsdFrame -> TsdFrame with the same number of columns *)
 Theorem C14_wrap_class_columns : forall (V W : Type) (f : arr V -> npres V W),
@@ -93,6 +100,21 @@ Proof.
 Qed.
 Print Assumptions C14_ufunc_protocol.
 
+(* 7b. ufuncs with several outputs (np.modf, np.frexp, np.divmod): every output goes through the wrapper of
+       clauses 1-6 on its own; element-wise outputs all come back as time series of x's class on x's time axis *)
+Theorem C14_ufunc_multi_output : forall (V W : Type) (x : ts V) (n : nat) (f : arr V -> list (npres V W)),
+  ((n <= 1)%nat -> array_ufunc_multi x true n f = Some (map (fun r => wrap (fun _ => r) x) (f (dat x))))
+  /\ array_ufunc_multi x false n f = None /\ ((2 <= n)%nat -> array_ufunc_multi x true n f = None).
+Proof. intros V W x n f. split; [apply ufunc_multi_is_wrap|apply ufunc_multi_refused]. Qed.
+Print Assumptions C14_ufunc_multi_output.
+
+Theorem C14_ufunc_multi_elementwise : forall (V W : Type) (x : ts V) (n : nat) (f : arr V -> list (npres V W)),
+  WF x -> (n <= 1)%nat ->
+  Forall (fun r => exists b, r = NArr b /\ wf_arr b /\ shape b = shape (dat x)) (f (dat x)) ->
+  exists ys, array_ufunc_multi x true n f = Some (map OTs ys) /\ Forall2 (ew_output x) (f (dat x)) ys.
+Proof. exact @ufunc_multi_elementwise. Qed.
+Print Assumptions C14_ufunc_multi_elementwise.
+
 (* 8. operands of two different classes: the numbers are NumPy's, the time axis is the outer operand's *)
 Theorem C14_mixed_values : forall (V W : Type) (g : arr V -> arr V -> npres V W),
   (forall a b c, g a b = NArr c -> wf_arr c) ->
@@ -141,12 +163,14 @@ Theorem C14_concat_support_two : forall (V : Type) (x y : ts V), WF x -> WF y ->
 Proof. exact @all_in_union2. Qed.
 Print Assumptions C14_concat_support_two.
 
-(* 10. splitting along time (np.split / np.array_split / np.vsplit) into N equal sections or at sorted
-       indices: every piece is a time series of x's class with x's support and labels, holding exactly the
-       timestamps AND the rows of its positions; the pieces partition the timestamps together with the data *)
+(* 10. splitting along time (np.split / np.array_split / np.vsplit) at sorted indices, into N equal sections,
+       or - np.array_split - into ANY number N > 0 of sections: every piece is a time series of x's class with
+       x's support and labels, holding exactly the timestamps AND the rows of its positions; the pieces
+       partition the timestamps together with the data.  np.split into sections that do not divide the length
+       is rejected (as NumPy rejects it) *)
 Theorem C14_split_sections : forall (V W : Type) (x : ts V) (array_split : bool) (N : nat),
-  WF x -> (0 < N)%nat -> (length (t_of x) mod N = 0)%nat ->
-  exists pts rs, np_div_points true (inl N) (length (t_of x)) = Some (0%nat :: pts)
+  WF x -> (0 < N)%nat -> (array_split = true \/ (length (t_of x) mod N = 0)%nat) ->
+  exists pts rs, np_div_points (negb array_split) (inl N) (length (t_of x)) = Some (0%nat :: pts)
     /\ @split_tsd V W x array_split (inl N) = inl (map OTs rs)
     /\ Forall2 (piece_ok x) (bounds (0%nat :: pts)) rs
     /\ concat (map t_of rs) = t_of x
@@ -154,6 +178,11 @@ Theorem C14_split_sections : forall (V W : Type) (x : ts V) (array_split : bool)
     /\ concat (map (fun r => combine (t_of r) (rows (dat r))) rs) = combine (t_of x) (rows (dat x)).
 Proof. exact @split_sections_partition. Qed.
 Print Assumptions C14_split_sections.
+
+Theorem C14_split_uneven_rejected : forall (V W : Type) (x : ts V) (N : nat),
+  (0 < N)%nat -> (length (t_of x) mod N <> 0)%nat -> @split_tsd V W x false (inl N) = inr EValueSplit.
+Proof. exact @split_uneven_rejected. Qed.
+Print Assumptions C14_split_uneven_rejected.
 
 Theorem C14_split_indices : forall (V W : Type) (x : ts V) (array_split : bool) (ix : list nat),
   WF x -> nd_le (length (t_of x)) 0 ix ->
@@ -172,18 +201,6 @@ Proof. exact @split_other_is_wrap. Qed.
 Print Assumptions C14_split_other_axis.
 
 (* ---- clauses that are false of the faithful model: witnesses (candidate findings, replayed on /repo) ---- *)
-Theorem C14_zero_dim_result_refuted :
-  exists (x : ts Z) (f : arr Z -> npres Z unit) (a : arr Z),
-    WF x /\ f (dat x) = NArr a /\ wf_arr a /\ array_function x FPlain f = OErr EIndex.
-Proof. exact zero_dim_witness. Qed.
-Print Assumptions C14_zero_dim_result_refuted.
-
-Theorem C14_array_split_uneven_refuted :
-  exists x : ts Z, WF x /\ np_div_points false (inl 2%nat) (length (t_of x)) = Some [0; 2; 3]%nat
-                   /\ @split_tsd Z unit x true (inl 2%nat) = inr EValueSplit.
-Proof. exact array_split_uneven_witness. Qed.
-Print Assumptions C14_array_split_uneven_refuted.
-
 Theorem C14_hsplit_1d_refuted :
   exists (x : ts Z) (p1 p2 : arr Z),
     WF x /\ cells p1 ++ cells p2 = cells (dat x) /\ @split_other Z unit x [p1; p2] = [OArr p1; OArr p2].
